@@ -182,11 +182,13 @@ Record mstate := {
   stop_mode : option smode;
   stop_task : option tid;
   crash_mode : bool;                  (* reloading after a crash: the database may lag the lost process *)
+  bcast : nat;                        (* the broadcast settings in force, as an opaque identifier: the harness interns
+                                         the canonical (point, namespace, setting, value) table; equal ids = equal tables *)
 }.
 
 Definition init_state (c : cfg) : mstate :=
   {| pool := []; limbo := []; hist := []; subs := []; limit := None; relq := []; abs_done := [];
-     stop_point := c_fcp c; done := []; to_hold := []; hold_pt := None; saved := []; stop_mode := None; stop_task := None; crash_mode := false |}.
+     stop_point := c_fcp c; done := []; to_hold := []; hold_pt := None; saved := []; stop_mode := None; stop_task := None; crash_mode := false; bcast := 0 |}.
 
 Fixpoint find_task (l : list ptask) (t : tid) : option ptask :=
   match l with
@@ -206,43 +208,47 @@ Fixpoint update_task (l : list ptask) (p' : ptask) : list ptask :=
 
 Definition with_pool (s : mstate) (l : list ptask) : mstate :=
   {| pool := l; limbo := limbo s; hist := hist s; subs := subs s; limit := limit s; relq := relq s;
-     abs_done := abs_done s; stop_point := stop_point s; done := done s; to_hold := to_hold s; hold_pt := hold_pt s; saved := saved s; stop_mode := stop_mode s; stop_task := stop_task s; crash_mode := crash_mode s |}.
+     abs_done := abs_done s; stop_point := stop_point s; done := done s; to_hold := to_hold s; hold_pt := hold_pt s; saved := saved s; stop_mode := stop_mode s; stop_task := stop_task s; crash_mode := crash_mode s; bcast := bcast s |}.
 Definition with_limbo (s : mstate) (l : list ptask) : mstate :=
   {| pool := pool s; limbo := l; hist := hist s; subs := subs s; limit := limit s; relq := relq s;
-     abs_done := abs_done s; stop_point := stop_point s; done := done s; to_hold := to_hold s; hold_pt := hold_pt s; saved := saved s; stop_mode := stop_mode s; stop_task := stop_task s; crash_mode := crash_mode s |}.
+     abs_done := abs_done s; stop_point := stop_point s; done := done s; to_hold := to_hold s; hold_pt := hold_pt s; saved := saved s; stop_mode := stop_mode s; stop_task := stop_task s; crash_mode := crash_mode s; bcast := bcast s |}.
 Definition with_hist (s : mstate) (l : list hrec) : mstate :=
   {| pool := pool s; limbo := limbo s; hist := l; subs := subs s; limit := limit s; relq := relq s;
-     abs_done := abs_done s; stop_point := stop_point s; done := done s; to_hold := to_hold s; hold_pt := hold_pt s; saved := saved s; stop_mode := stop_mode s; stop_task := stop_task s; crash_mode := crash_mode s |}.
+     abs_done := abs_done s; stop_point := stop_point s; done := done s; to_hold := to_hold s; hold_pt := hold_pt s; saved := saved s; stop_mode := stop_mode s; stop_task := stop_task s; crash_mode := crash_mode s; bcast := bcast s |}.
 Definition with_subs (s : mstate) (l : list (tid * nat)) : mstate :=
   {| pool := pool s; limbo := limbo s; hist := hist s; subs := l; limit := limit s; relq := relq s;
-     abs_done := abs_done s; stop_point := stop_point s; done := done s; to_hold := to_hold s; hold_pt := hold_pt s; saved := saved s; stop_mode := stop_mode s; stop_task := stop_task s; crash_mode := crash_mode s |}.
+     abs_done := abs_done s; stop_point := stop_point s; done := done s; to_hold := to_hold s; hold_pt := hold_pt s; saved := saved s; stop_mode := stop_mode s; stop_task := stop_task s; crash_mode := crash_mode s; bcast := bcast s |}.
 Definition with_limit (s : mstate) (l : option Z) : mstate :=
   {| pool := pool s; limbo := limbo s; hist := hist s; subs := subs s; limit := l; relq := relq s;
-     abs_done := abs_done s; stop_point := stop_point s; done := done s; to_hold := to_hold s; hold_pt := hold_pt s; saved := saved s; stop_mode := stop_mode s; stop_task := stop_task s; crash_mode := crash_mode s |}.
+     abs_done := abs_done s; stop_point := stop_point s; done := done s; to_hold := to_hold s; hold_pt := hold_pt s; saved := saved s; stop_mode := stop_mode s; stop_task := stop_task s; crash_mode := crash_mode s; bcast := bcast s |}.
 Definition with_relq (s : mstate) (l : list tid) : mstate :=
   {| pool := pool s; limbo := limbo s; hist := hist s; subs := subs s; limit := limit s; relq := l;
-     abs_done := abs_done s; stop_point := stop_point s; done := done s; to_hold := to_hold s; hold_pt := hold_pt s; saved := saved s; stop_mode := stop_mode s; stop_task := stop_task s; crash_mode := crash_mode s |}.
+     abs_done := abs_done s; stop_point := stop_point s; done := done s; to_hold := to_hold s; hold_pt := hold_pt s; saved := saved s; stop_mode := stop_mode s; stop_task := stop_task s; crash_mode := crash_mode s; bcast := bcast s |}.
 Definition with_done (s : mstate) (l : list key) : mstate :=
   {| pool := pool s; limbo := limbo s; hist := hist s; subs := subs s; limit := limit s; relq := relq s;
-     abs_done := abs_done s; stop_point := stop_point s; done := l; to_hold := to_hold s; hold_pt := hold_pt s; saved := saved s; stop_mode := stop_mode s; stop_task := stop_task s; crash_mode := crash_mode s |}.
+     abs_done := abs_done s; stop_point := stop_point s; done := l; to_hold := to_hold s; hold_pt := hold_pt s; saved := saved s; stop_mode := stop_mode s; stop_task := stop_task s; crash_mode := crash_mode s; bcast := bcast s |}.
 Definition with_hold (s : mstate) (l : list tid) (hp : option Z) : mstate :=
   {| pool := pool s; limbo := limbo s; hist := hist s; subs := subs s; limit := limit s; relq := relq s;
-     abs_done := abs_done s; stop_point := stop_point s; done := done s; to_hold := l; hold_pt := hp; saved := saved s; stop_mode := stop_mode s; stop_task := stop_task s; crash_mode := crash_mode s |}.
+     abs_done := abs_done s; stop_point := stop_point s; done := done s; to_hold := l; hold_pt := hp; saved := saved s; stop_mode := stop_mode s; stop_task := stop_task s; crash_mode := crash_mode s; bcast := bcast s |}.
 Definition with_stop (s : mstate) (sp : Z) (m : option smode) (st : option tid) : mstate :=
   {| pool := pool s; limbo := limbo s; hist := hist s; subs := subs s; limit := limit s; relq := relq s;
      abs_done := abs_done s; stop_point := sp; done := done s; to_hold := to_hold s; hold_pt := hold_pt s;
-     saved := saved s; stop_mode := m; stop_task := st; crash_mode := crash_mode s |}.
+     saved := saved s; stop_mode := m; stop_task := st; crash_mode := crash_mode s; bcast := bcast s |}.
 Definition with_saved (s : mstate) (l : list ptask) : mstate :=
   {| pool := pool s; limbo := limbo s; hist := hist s; subs := subs s; limit := limit s; relq := relq s;
      abs_done := abs_done s; stop_point := stop_point s; done := done s; to_hold := to_hold s; hold_pt := hold_pt s;
-     saved := l; stop_mode := stop_mode s; stop_task := stop_task s; crash_mode := crash_mode s |}.
+     saved := l; stop_mode := stop_mode s; stop_task := stop_task s; crash_mode := crash_mode s; bcast := bcast s |}.
 Definition with_crash (s : mstate) (b : bool) : mstate :=
   {| pool := pool s; limbo := limbo s; hist := hist s; subs := subs s; limit := limit s; relq := relq s;
      abs_done := abs_done s; stop_point := stop_point s; done := done s; to_hold := to_hold s; hold_pt := hold_pt s;
-     saved := saved s; stop_mode := stop_mode s; stop_task := stop_task s; crash_mode := b |}.
+     saved := saved s; stop_mode := stop_mode s; stop_task := stop_task s; crash_mode := b; bcast := bcast s |}.
+Definition with_bcast (s : mstate) (n : nat) : mstate :=
+  {| pool := pool s; limbo := limbo s; hist := hist s; subs := subs s; limit := limit s; relq := relq s;
+     abs_done := abs_done s; stop_point := stop_point s; done := done s; to_hold := to_hold s; hold_pt := hold_pt s;
+     saved := saved s; stop_mode := stop_mode s; stop_task := stop_task s; crash_mode := crash_mode s; bcast := n |}.
 Definition with_abs (s : mstate) (l : list key) : mstate :=
   {| pool := pool s; limbo := limbo s; hist := hist s; subs := subs s; limit := limit s; relq := relq s;
-     abs_done := l; stop_point := stop_point s; done := done s; to_hold := to_hold s; hold_pt := hold_pt s; saved := saved s; stop_mode := stop_mode s; stop_task := stop_task s; crash_mode := crash_mode s |}.
+     abs_done := l; stop_point := stop_point s; done := done s; to_hold := to_hold s; hold_pt := hold_pt s; saved := saved s; stop_mode := stop_mode s; stop_task := stop_task s; crash_mode := crash_mode s; bcast := bcast s |}.
 
 (* a task is looked up in the pool first, then among the just-spawned ones *)
 Definition lookup (s : mstate) (t : tid) : option (ptask * bool) :=
@@ -392,7 +398,11 @@ Inductive event :=
    is already in the pool (submission / kill callbacks keep a reference to the old object): the output is
    really emitted, the hold request really recorded, but the pool proxy is not touched *)
 | EStaleOutput (t : tid) (o : nat)
-| EStaleHold (t : tid).
+| EStaleHold (t : tid)
+(* broadcasts (C19, C22 at scheduler level) *)
+| EBcast (n : nat)            (* the settings in force change (operator command or expiry of old cycles) *)
+| EBcastDb (n : nat)          (* end of an iteration: what the database holds *)
+| EBcastLoaded (n : nat).     (* what a restarted scheduler loaded *)
 
 Definition emitted (tr : list event) (k : key) : Prop :=
   In (EOutput (fst k) (snd k)) tr \/ In (EStaleOutput (fst k) (snd k)) tr.
@@ -629,7 +639,7 @@ Definition step (c : cfg) (s : mstate) (e : event) : res :=
             done := filter (fun k => keep k || mem key_eqb k (abs_done s)) (done s);
             to_hold := to_hold s; hold_pt := hold_pt s;
             saved := map fix_task (saved s); stop_mode := stop_mode s; stop_task := stop_task s;
-            crash_mode := crash_mode s |}
+            crash_mode := crash_mode s; bcast := bcast s |}
   | ECrash =>
       (* the process died: what the new process reloads is whatever was last committed *)
       Ok (with_crash (with_saved (with_limit (with_relq (with_limbo (with_pool
@@ -719,6 +729,11 @@ Definition step (c : cfg) (s : mstate) (e : event) : res :=
       else Ok (with_stop s (c_fcp c) (Some SAuto) (stop_task s))   (* the early stop point is forgotten once reached (C43) *)
   | EStaleOutput t o => Ok (with_done s ((t, o) :: done s))
   | EStaleHold t => Ok (add_hold s t)
+  | EBcast n => Ok (with_bcast s n)
+  | EBcastDb n => if Nat.eqb n (bcast s) then Ok s else Err 301       (* the database lags the broadcasts in force (C19 C22) *)
+  | EBcastLoaded n =>
+      if crash_mode s then Ok (with_bcast s n)      (* after a crash: whatever was last committed *)
+      else if Nat.eqb n (bcast s) then Ok s else Err 302             (* a restart must give the broadcasts back (C19) *)
   end.
 
 Fixpoint run_from (c : cfg) (s : mstate) (i : nat) (tr : list event) : option (nat * nat) * mstate :=
